@@ -6,6 +6,7 @@ import (
 	"fmt"
 	"net"
 	"os"
+	"runtime"
 	"strings"
 	"sync"
 	"syscall"
@@ -51,6 +52,8 @@ type discCase struct {
 	// simulator or a port-forwarded controller on the same machine) instead of a loopback address
 	ListenerState int  `json:"listener_state,omitempty"`
 	HostSender    bool `json:"sender_on_host_address,omitempty"`
+	// hook layer: Procs - GOMAXPROCS for the duration of the case (0 = unchanged): a single-core host, a one-CPU container
+	Procs int `json:"gomaxprocs,omitempty"`
 }
 
 type quietListener struct{}
@@ -236,6 +239,11 @@ func describe(c discCase) string {
 }
 
 func runHook(c discCase) *rp.Fail {
+	if c.Procs > 0 {
+		ev.Class(fmt.Sprintf("hook/gomaxprocs-%d", c.Procs), 1)
+		old := runtime.GOMAXPROCS(c.Procs)
+		defer runtime.GOMAXPROCS(old)
+	}
 	u, d := hook.Mem(c.Cfg)
 	d.Reset(c.Datagrams...)
 	var list []types.Device
@@ -465,6 +473,9 @@ func genCase(layer string) func(t *rapid.T) discCase {
 		if rapid.IntRange(0, 3).Draw(t, "broadcast.set") != 0 || layer == "socket" {
 			c.Cfg.HasBroadcast, c.Cfg.BroadcastPort = true, gen.Port(t, "broadcast.port")
 			c.Cfg.BroadcastIP = rapid.SampledFrom([][4]byte{{192, 168, 1, 255}, {192, 168, 1, 255}, {255, 255, 255, 255}, {0, 0, 0, 0}, {127, 0, 0, 1}, {10, 255, 255, 255}, {192, 168, 1, 100}}).Draw(t, "broadcast.ip")
+		}
+		if layer == "hook" && rapid.IntRange(0, 3).Draw(t, "procs.set") == 0 {
+			c.Procs = rapid.SampledFrom([]int{1, 1, 2, 3}).Draw(t, "procs")
 		}
 		if layer == "socket" {
 			c.FixedPort = rapid.IntRange(0, 3).Draw(t, "fixed.port") == 0
